@@ -54,6 +54,10 @@ class Explorer:
             return None
         if k == "u":
             o = e.get("o")
+            if o == "*":
+                inner = T.strip(e["e"])
+                if isinstance(inner, dict) and inner.get("k") == "c" and inner.get("fn") == "__errno_location":
+                    return "NZ"   # idiom: `return errno` after a failed call (assumed non-zero)
             v = self.eval(e["e"], env)
             if o == "-":
                 if v in ("T", "NZ", "Z"):
